@@ -271,6 +271,76 @@ def g_sedov():
     return {'Sedov': (text, js)}
 
 
+@group('suolson')
+def g_suolson():
+    """Su-Olson (timmes.py): dispersion functions gamma_*, phases theta_*, the four integrands upart1/2, vpart1/2 (the module
+    globals posx, tau, epsilon they read are free variables) and the dimensionalisation so_wave with the two transform
+    solutions as free variables; quad / brentq and the splitting at the zeros are outside the subset"""
+    from py2coq import Interp, Func, free_vars
+    mod = Module(os.path.join(S, 'suolson/timmes.py'))
+    text = HEADER % 'exactpack/solvers/suolson/timmes.py'
+    js = {}
+
+    def emit(nm, args, e, comment):
+        nonlocal text
+        fv = free_vars(e)
+        for v in fv:
+            if v not in args:
+                raise Unsupported('suolson: %s has stray variable %s' % (nm, v))
+        args = [a for a in args if a in fv]
+        text += '\n' + emit_function(nm, args, e, comment=comment)
+        text += '#[global] Hint Unfold %s : epgen.\n' % nm
+        js[nm] = {'args': args, 'expr': expr_to_json(e)}
+    for k in ('one', 'two', 'three'):
+        for fn in ('gamma_' + k, 'theta_' + k):
+            ret, it = translate_function(mod, fn, [('eta', 'eta'), ('epsilon', 'epsilon')])
+            if it.raises or not is_expr(ret):
+                raise Unsupported('suolson.%s: unexpected shape' % fn)
+            emit('so_' + fn, ['eta', 'epsilon'], ret, fn + '(eta, epsilon)')
+    for fn in ('upart1', 'upart2', 'vpart1', 'vpart2'):
+        mod.consts = {'posx': ('var', 'posx'), 'tau': ('var', 'tau'), 'epsilon': ('var', 'epsilon')}     # the Fortran-style common block
+        ret, it = translate_function(mod, fn, [('eta', 'eta')])
+        mod.consts = {}
+        if it.raises or not is_expr(ret):
+            raise Unsupported('suolson.%s: unexpected shape' % fn)
+        emit('so_' + fn, ['eta', 'posx', 'tau', 'epsilon'], ret, fn + '(eta) with the module globals posx, tau, epsilon')
+    # so_wave: the calls usolution(xpos, tau, epsilon) / vsolution(...) are recorded and replaced by free variables
+    calls = {}
+
+    def h_u(interp, args, kwargs, n):
+        calls['u'] = args
+        return ('var', 'uans')
+
+    def h_v(interp, args, kwargs, n):
+        calls['v'] = args
+        return ('var', 'vans')
+    ret, it = translate_function(mod, 'so_wave', [('time', 'time'), ('zpos', 'zpos'), ('trad_bc_ev', 'trad_bc_ev'), ('opac', 'opac'), ('alpha', 'alpha')],
+                                 helpers={'usolution': h_u, 'vsolution': h_v})
+    if it.raises or not (isinstance(ret, (tuple, list)) and len(ret) == 5) or 'u' not in calls or 'v' not in calls:
+        raise Unsupported('suolson.so_wave: unexpected shape')
+    A = ['time', 'zpos', 'trad_bc_ev', 'opac', 'alpha', 'uans', 'vans']
+    for nm, e in zip(('erad', 'trad', 'trad_ev', 'tmat', 'tmat_ev'), ret):
+        emit('so_wave_' + nm, A, e, 'so_wave(...)[%s]' % nm)
+    if len(calls['u']) != 3 or len(calls['v']) != 4 or list(calls['v'][:3]) != list(calls['u']) or calls['v'][3] != ('var', 'uans'):
+        raise Unsupported('suolson.so_wave: usolution / vsolution are not called with the same (xpos, tau, epsilon)')
+    for nm, e in zip(('xpos', 'tau', 'epsilon'), calls['u']):
+        emit('so_wave_' + nm, A, e, 'so_wave: argument %s passed to usolution and vsolution' % nm)
+    # --- how usolution / vsolution combine their two quadratures: the constant assignments and the return expression
+    for fn, args in (('usolution', ['sum1', 'sum2', 'tau']), ('vsolution', ['uans', 'sum1', 'sum2', 'tau'])):
+        node = mod.funcs[fn]
+        it = Interp(mod, {})
+        env = {a: ('var', a) for a in args}
+        rets = [st for st in node.body if isinstance(st, ast.Return)]
+        if len(rets) != 1 or node.body[-1] is not rets[0]:
+            raise Unsupported('suolson.%s: expected a single final return' % fn)
+        for st in node.body:
+            if isinstance(st, ast.Assign) and len(st.targets) == 1 and isinstance(st.targets[0], ast.Name) and st.targets[0].id in ('rt3', 'rt3opi'):
+                env[st.targets[0].id] = it.ev(st.value, env)
+        e = it.ev(rets[0].value, env)
+        emit('so_%s_combine' % fn, args, e, '%s: return value as a function of the two quadrature sums' % fn)
+    return {'SuOlson': (text, js)}
+
+
 def methods_group(relpath, outname, specs):
     """specs: list of (coq prefix, class, [self attribute names], [(method, [arg names])])"""
     from gen import translate_method, nan_cond, strip_nan
